@@ -17,7 +17,7 @@ Section TvalInd.
   Hypothesis HTable : forall l, Forall (fun kv => P (fst kv) /\ P (snd kv)) l -> P (TTable l).
   Hypothesis HFn : forall h a, P (TFn h a).
   Hypothesis HNative : forall h, P (TNative h).
-  Hypothesis HClosure : forall h a, P (TClosure h a).
+  Hypothesis HClosure : forall i h a, P (TClosure i h a).
 
   Fixpoint tval_ind' (a : tval) : P a :=
     match a with
@@ -34,7 +34,7 @@ Section TvalInd.
               end) l)
     | TFn h a => HFn h a
     | TNative h => HNative h
-    | TClosure h a => HClosure h a
+    | TClosure i h a => HClosure i h a
     end.
 End TvalInd.
 
@@ -229,10 +229,13 @@ Proof.
   - cbn. apply list_eqb_N_sym.
   - rewrite !teq_table. rewrite Nat.eqb_sym. f_equal.
     apply all2_sym. apply Forall_filter'. assumption.
+  - cbn. rewrite (N.eqb_sym h), (N.eqb_sym a). reflexivity.
+  - cbn. apply N.eqb_sym.
+  - cbn. apply N.eqb_sym.
 Qed.
 
 (* ------------------------------------------------------------------ *)
-(* a == a is exactly the visibility test; reflexivity on clean values *)
+(* a == a is exactly the visibility test; reflexivity off NaN *)
 Lemma all2_diag m : all2 m m = forallb (fun kv => teq (fst kv) (fst kv) && teq (snd kv) (snd kv)) m.
 Proof. induction m as [|[k v] r IH]; cbn [all2 forallb fst snd]; [reflexivity|]. rewrite IH. reflexivity. Qed.
 
@@ -248,15 +251,16 @@ Proof.
     destruct (tself k) eqn:E.
     + cbn [forallb fst snd]. rewrite Hk, Hv. cbn [andb]. f_equal. apply IH.
     + apply IH.
+  - cbn. rewrite !N.eqb_refl. reflexivity.
+  - cbn. apply N.eqb_refl.
+  - cbn. apply N.eqb_refl.
 Qed.
 
-Definition clean_node (x : tval) : bool := node_not_nan x && node_not_fn x.
-
-Lemma tclean_self : forall a, tclean a = true -> tself a = true.
+Lemma no_nan_self : forall a, no_nan a = true -> tself a = true.
 Proof.
-  unfold tclean. fold clean_node.
+  unfold no_nan.
   induction a using tval_ind'; intros C; try reflexivity; try discriminate.
-  - cbn in C. cbn. rewrite andb_true_r in C. apply andb_true_iff in C. apply C.
+  - cbn in C. cbn. rewrite andb_true_r in C. apply C.
   - rewrite tall_table in C. apply andb_true_iff in C. destruct C as [_ C].
     rewrite tself_table.
     induction H as [|[k v] r [Hk Hv] _ IH]; [reflexivity|].
@@ -266,33 +270,33 @@ Proof.
     unfold self_entry at 1. cbn [fst snd]. rewrite (Hk Ck), (Hv Cv). cbn [andb]. apply IH, C2.
 Qed.
 
-Theorem teq_refl : forall a, tclean a = true -> teq a a = true.
-Proof. intros a C. rewrite teq_self. apply tclean_self, C. Qed.
+Theorem teq_refl : forall a, no_nan a = true -> teq a a = true.
+Proof. intros a C. rewrite teq_self. apply no_nan_self, C. Qed.
 
-(* on a clean table every entry is visible *)
-Lemma tclean_entries l : tclean (TTable l) = true ->
-  Forall (fun kv => tclean (fst kv) = true /\ tclean (snd kv) = true) l.
+(* in a table without NaN every entry is visible *)
+Lemma no_nan_entries l : no_nan (TTable l) = true ->
+  Forall (fun kv => no_nan (fst kv) = true /\ no_nan (snd kv) = true) l.
 Proof.
-  unfold tclean. rewrite tall_table. intros C. apply andb_true_iff in C. destruct C as [_ C].
+  unfold no_nan. rewrite tall_table. intros C. apply andb_true_iff in C. destruct C as [_ C].
   rewrite forallb_forall in C. apply Forall_forall. intros kv Hin.
   specialize (C kv Hin). apply andb_true_iff in C. exact C.
 Qed.
 
-Lemma tclean_tvis l : tclean (TTable l) = true -> tvis l = l.
+Lemma no_nan_tvis l : no_nan (TTable l) = true -> tvis l = l.
 Proof.
-  intros C. apply tclean_entries in C. unfold tvis.
+  intros C. apply no_nan_entries in C. unfold tvis.
   induction C as [|kv r [Ck _] _ IH]; [reflexivity|].
-  cbn [filter]. rewrite (tclean_self _ Ck), IH. reflexivity.
+  cbn [filter]. rewrite (no_nan_self _ Ck), IH. reflexivity.
 Qed.
 
 (* ------------------------------------------------------------------ *)
-(* transitivity: the middle value must be clean (see [teq_trans_refuted]) *)
+(* transitivity: the middle value must be free of NaN (see [teq_trans_nan_refuted]) *)
 Definition trans_at (b : tval) : Prop :=
-  tclean b = true -> forall a c, teq a b = true -> teq b c = true -> teq a c = true.
+  no_nan b = true -> forall a c, teq a b = true -> teq b c = true -> teq a c = true.
 
 Lemma all2_trans mb :
   Forall (fun kv => (trans_at (fst kv) /\ trans_at (snd kv)) /\
-                    (tclean (fst kv) = true /\ tclean (snd kv) = true)) mb ->
+                    (no_nan (fst kv) = true /\ no_nan (snd kv) = true)) mb ->
   forall ma mc, length ma <= length mb -> length mc <= length mb ->
     all2 ma mb = true -> all2 mb mc = true -> all2 ma mc = true.
 Proof.
@@ -310,7 +314,7 @@ Proof.
 Qed.
 
 Theorem teq_trans : forall a b c,
-  tclean b = true -> teq a b = true -> teq b c = true -> teq a c = true.
+  no_nan b = true -> teq a b = true -> teq b c = true -> teq a c = true.
 Proof.
   intros a b c Cb. revert a c. generalize Cb. change (trans_at b). clear Cb.
   induction b using tval_ind'; intros Cb x y Hab Hbc;
@@ -319,16 +323,21 @@ Proof.
   - cbn in *. apply Z.eqb_eq in Hab. apply Z.eqb_eq in Hbc. apply Z.eqb_eq. congruence.
   - cbn in *. eapply SFeqb_trans; eassumption.
   - cbn in *. apply list_eqb_N_eq in Hab. apply list_eqb_N_eq in Hbc. apply list_eqb_N_eq. congruence.
-  - rewrite teq_table in *. rewrite (tclean_tvis _ Cb) in *.
+  - rewrite teq_table in *. rewrite (no_nan_tvis _ Cb) in *.
     apply andb_true_iff in Hab. destruct Hab as [L1 A1].
     apply andb_true_iff in Hbc. destruct Hbc as [L2 A2].
     apply Nat.eqb_eq in L1. apply Nat.eqb_eq in L2.
     apply andb_true_iff. split; [apply Nat.eqb_eq; congruence|].
     eapply all2_trans; try eassumption.
-    + pose proof (tclean_entries _ Cb) as CE.
+    + pose proof (no_nan_entries _ Cb) as CE.
       rewrite Forall_forall in *. intros kv Hin. split; [apply H, Hin|apply CE, Hin].
     + rewrite <- L1. apply filter_length_le'.
     + rewrite L2. apply filter_length_le'.
+  - cbn in *. apply andb_true_iff in Hab. destruct Hab as [H1 H2].
+    apply andb_true_iff in Hbc. destruct Hbc as [H3 H4].
+    apply N.eqb_eq in H1, H2, H3, H4. subst. rewrite !N.eqb_refl. reflexivity.
+  - cbn in *. apply N.eqb_eq in Hab, Hbc. subst. apply N.eqb_refl.
+  - cbn in *. apply N.eqb_eq in Hab, Hbc. subst. apply N.eqb_refl.
 Qed.
 
 (* ------------------------------------------------------------------ *)
@@ -341,34 +350,50 @@ Proof.
   specialize (C kv Hin). apply andb_true_iff in C. exact C.
 Qed.
 
-Definition hash_at (a : tval) : Prop :=
-  forall b, teq a b = true -> tclean a = true -> tclean b = true -> no_zero_real a = true ->
-            thash_bytes a = thash_bytes b.
+Lemma tclos_table l : tclos (TTable l) = flat_map (fun kv => tclos (fst kv) ++ tclos (snd kv)) l.
+Proof.
+  cbn [tclos]. induction l as [|[k v] r IH]; [reflexivity|].
+  cbn [flat_map fst snd]. rewrite <- IH. reflexivity.
+Qed.
 
-Lemma flat_map_all2 ma :
+Lemma tclos_entries_incl l C : incl (tclos (TTable l)) C ->
+  Forall (fun kv => incl (tclos (fst kv)) C /\ incl (tclos (snd kv)) C) l.
+Proof.
+  rewrite tclos_table. intros H. apply Forall_forall. intros kv Hin.
+  split; intros x Hx; apply H; apply in_flat_map; exists kv; (split; [exact Hin|]);
+    apply in_or_app; [left|right]; exact Hx.
+Qed.
+
+(* [C]: the closure objects around; an id names one object *)
+Definition hash_at (a : tval) : Prop :=
+  forall b C, teq a b = true -> no_nan a = true -> no_nan b = true -> no_zero_real a = true ->
+    coherent C -> incl (tclos a) C -> incl (tclos b) C ->
+    thash_bytes a = thash_bytes b.
+
+Lemma flat_map_all2 C ma : coherent C ->
   Forall (fun kv => (hash_at (fst kv) /\ hash_at (snd kv)) /\
-                    (tclean (fst kv) = true /\ tclean (snd kv) = true) /\
-                    (no_zero_real (fst kv) = true /\ no_zero_real (snd kv) = true)) ma ->
+                    (no_nan (fst kv) = true /\ no_nan (snd kv) = true) /\
+                    (no_zero_real (fst kv) = true /\ no_zero_real (snd kv) = true) /\
+                    (incl (tclos (fst kv)) C /\ incl (tclos (snd kv)) C)) ma ->
   forall mb, length ma = length mb ->
-    Forall (fun kv => tclean (fst kv) = true /\ tclean (snd kv) = true) mb ->
+    Forall (fun kv => (no_nan (fst kv) = true /\ no_nan (snd kv) = true) /\
+                      (incl (tclos (fst kv)) C /\ incl (tclos (snd kv)) C)) mb ->
     all2 ma mb = true -> flat_map entry_bytes ma = flat_map entry_bytes mb.
 Proof.
-  induction 1 as [|[ka va] ra [[Hk Hv] [[Ck Cv] [Zk Zv]]] _ IH]; intros [|[kb vb] rb] L CB A;
+  intros HC.
+  induction 1 as [|[ka va] ra [[Hk Hv] [[Ck Cv] [[Zk Zv] [Ik Iv]]]] _ IH]; intros [|[kb vb] rb] L CB A;
     try discriminate; [reflexivity|].
-  inversion CB as [|? ? [Ckb Cvb] CB']; subst.
+  inversion CB as [|? ? [[Ckb Cvb] [Ikb Ivb]] CB']; subst.
   cbn [all2 fst snd length flat_map] in *.
   apply andb_true_iff in A. destruct A as [A A3]. apply andb_true_iff in A. destruct A as [A1 A2].
   unfold entry_bytes at 1 3. cbn [fst snd].
-  rewrite (Hk kb A1 Ck Ckb Zk), (Hv vb A2 Cv Cvb Zv). f_equal.
+  rewrite (Hk kb C A1 Ck Ckb Zk HC Ik Ikb), (Hv vb C A2 Cv Cvb Zv HC Iv Ivb). f_equal.
   apply IH; try assumption. lia.
 Qed.
 
-Theorem teq_hash_bytes : forall a b,
-  teq a b = true -> tclean a = true -> tclean b = true -> no_zero_real a = true ->
-  thash_bytes a = thash_bytes b.
+Lemma teq_hash_bytes_in : forall a, hash_at a.
 Proof.
-  intros a. change (hash_at a).
-  induction a using tval_ind'; intros b E Ca Cb Za; destruct b; try discriminate.
+  induction a using tval_ind'; intros b C E Ca Cb Za HC Ia Ib; destruct b; try discriminate.
   - reflexivity.
   - cbn in E. apply Z.eqb_eq in E. subst. reflexivity.
   - cbn in E. apply SFeqb_true in E. cbn [thash_bytes]. f_equal.
@@ -376,20 +401,51 @@ Proof.
     + cbn in Za. rewrite Zf in Za. discriminate.
     + apply sf_inj_bits; assumption.
   - cbn in E. apply list_eqb_N_eq in E. subst. reflexivity.
-  - rewrite teq_table in E. rewrite (tclean_tvis _ Ca), (tclean_tvis _ Cb) in E.
-    rewrite !thash_bytes_table, (tclean_tvis _ Ca), (tclean_tvis _ Cb).
+  - rewrite teq_table in E. rewrite (no_nan_tvis _ Ca), (no_nan_tvis _ Cb) in E.
+    rewrite !thash_bytes_table, (no_nan_tvis _ Ca), (no_nan_tvis _ Cb).
     apply andb_true_iff in E. destruct E as [L A]. apply Nat.eqb_eq in L.
-    apply flat_map_all2; try assumption.
-    + pose proof (tclean_entries _ Ca) as CE. pose proof (tall_entries _ _ Za) as ZE.
+    apply (flat_map_all2 C); try assumption.
+    + pose proof (no_nan_entries _ Ca) as CE. pose proof (tall_entries _ _ Za) as ZE.
+      pose proof (tclos_entries_incl _ _ Ia) as IE.
       rewrite Forall_forall in *. intros kv Hin. repeat split;
-        try apply H; try apply CE; try apply ZE; assumption.
-    + apply tclean_entries, Cb.
+        try apply H; try apply CE; try apply ZE; try apply IE; assumption.
+    + pose proof (no_nan_entries _ Cb) as CE. pose proof (tclos_entries_incl _ _ Ib) as IE.
+      rewrite Forall_forall in *. intros kv Hin. split; [apply CE|apply IE]; assumption.
+  - cbn in E. apply andb_true_iff in E. destruct E as [E1 E2].
+    apply N.eqb_eq in E1, E2. subst. reflexivity.
+  - cbn in E. apply N.eqb_eq in E. subst. reflexivity.
+  - cbn in E. apply N.eqb_eq in E. subst.
+    assert (X : (h, a) = (handle, arity)).
+    { apply (HC id); [apply Ia|apply Ib]; left; reflexivity. }
+    inversion X; subst. reflexivity.
+Qed.
+
+(* equal values feed the same bytes to the hasher: no NaN, no signed zero; function objects
+   allowed (closure ids naming one object each) *)
+Theorem teq_hash_bytes : forall a b,
+  teq a b = true -> no_nan a = true -> no_nan b = true -> no_zero_real a = true ->
+  coherent (tclos a ++ tclos b) ->
+  thash_bytes a = thash_bytes b.
+Proof.
+  intros a b E Ca Cb Za HC. apply (teq_hash_bytes_in a b (tclos a ++ tclos b)); try assumption.
+  - apply incl_appl, incl_refl.
+  - apply incl_appr, incl_refl.
 Qed.
 
 Theorem teq_hash : forall a b,
-  teq a b = true -> tclean a = true -> tclean b = true -> no_zero_real a = true ->
+  teq a b = true -> no_nan a = true -> no_nan b = true -> no_zero_real a = true ->
+  coherent (tclos a ++ tclos b) ->
   thash a = thash b.
 Proof. intros. unfold thash. erewrite teq_hash_bytes; eauto. Qed.
+
+(* the executable test of coherence used by the checker *)
+Lemma coherentb_correct c : coherentb c = true -> coherent c.
+Proof.
+  unfold coherentb, coherent. intros H i x y Hx Hy.
+  rewrite forallb_forall in H. specialize (H _ Hx). rewrite forallb_forall in H. specialize (H _ Hy).
+  cbn [fst snd] in H. rewrite N.eqb_refl in H. apply andb_true_iff in H. destruct H as [H1 H2].
+  apply N.eqb_eq in H1, H2. destruct x, y. cbn [fst snd] in *. congruence.
+Qed.
 
 (* ------------------------------------------------------------------ *)
 (* ordering *)
@@ -399,11 +455,10 @@ Proof.
   intros a b E.
   assert (H : tcmp a b = None \/ tcmp a b = Some Eq).
   { destruct a, b; try discriminate; unfold tcmp; cbn [is_real is_int is_obj orb andb to_sf to_i64].
+    all: try (right; unfold obj_cmp; rewrite E; reflexivity).
     - left; reflexivity.
     - right. cbn in E. apply Z.eqb_eq in E. subst. rewrite Z.compare_refl. reflexivity.
-    - right. cbn in E. apply SFeqb_true, E.
-    - right. unfold obj_cmp. rewrite E. reflexivity.
-    - right. unfold obj_cmp. rewrite E. reflexivity. }
+    - right. cbn in E. apply SFeqb_true, E. }
   destruct H as [H|H]; rewrite H; split; discriminate.
 Qed.
 
@@ -478,27 +533,44 @@ Proof. split; [reflexivity|]. vm_compute. discriminate. Qed.
 Theorem nan_not_reflexive : teq (TReal r_nan) (TReal r_nan) = false.
 Proof. reflexivity. Qed.
 
-(* function objects are never equal, not even to themselves *)
-Theorem fn_not_reflexive : forall h a,
-  teq (TFn h a) (TFn h a) = false /\ teq (TNative h) (TNative h) = false /\
-  teq (TClosure h a) (TClosure h a) = false.
-Proof. intros; repeat split. Qed.
-
-(* a table with a key that is not equal to itself (function object, NaN): `iter` skips the entry,
-   len() counts it.  It is == to tables with other content, with another hash; and == is not
-   transitive through it. *)
-Definition t_fnkey : tval := TTable [(TFn 1 0, TInt 1); (TInt 2, TInt 3)].
+(* a table with a key that is not equal to itself (NaN): `iter` skips the entry, len() counts
+   it.  It is == to tables with other content, with another hash, and == is not transitive
+   through it: why [no_nan] is a hypothesis of teq_trans and teq_hash_bytes. *)
+Definition t_nankey : tval := TTable [(TReal r_nan, TInt 1); (TInt 2, TInt 3)].
 Definition t_23_45 : tval := TTable [(TInt 2, TInt 3); (TInt 4, TInt 5)].
 Definition t_23_67 : tval := TTable [(TInt 2, TInt 3); (TInt 6, TInt 7)].
 
-Theorem fn_key_eq_hash_refuted :
-  teq t_fnkey t_23_45 = true /\ no_nan t_fnkey = true /\ no_zero_real t_fnkey = true /\
-  thash t_fnkey <> thash t_23_45.
+Theorem nan_key_eq_hash_refuted :
+  teq t_nankey t_23_45 = true /\ thash t_nankey <> thash t_23_45.
+Proof. split; [reflexivity|]. vm_compute. discriminate. Qed.
+
+Theorem teq_trans_nan_refuted :
+  teq t_23_45 t_nankey = true /\ teq t_nankey t_23_67 = true /\ teq t_23_45 t_23_67 = false.
+Proof. repeat split; reflexivity. Qed.
+
+(* ---- the code before the repair f13cfaa (finding A-40) ---- *)
+(* function objects were never equal, not even to themselves *)
+Theorem fn_not_reflexive_legacy : forall i h a,
+  teq_legacy (TFn h a) (TFn h a) = false /\ teq_legacy (TNative h) (TNative h) = false /\
+  teq_legacy (TClosure i h a) (TClosure i h a) = false.
+Proof. intros; repeat split. Qed.
+
+(* so a function-keyed entry was skipped like a NaN-keyed one: {f: 1, 2: 3} == {2: 3, 4: 5} *)
+Definition t_fnkey : tval := TTable [(TFn 1 0, TInt 1); (TInt 2, TInt 3)].
+
+Theorem fn_key_eq_hash_legacy_refuted :
+  teq_legacy t_fnkey t_23_45 = true /\ no_nan t_fnkey = true /\ no_zero_real t_fnkey = true /\
+  thash_legacy t_fnkey <> thash_legacy t_23_45.
 Proof. repeat split; try reflexivity. vm_compute. discriminate. Qed.
 
-Theorem teq_trans_refuted :
-  teq t_23_45 t_fnkey = true /\ teq t_fnkey t_23_67 = true /\ teq t_23_45 t_23_67 = false /\
-  no_nan t_fnkey = true.
+Theorem teq_trans_legacy_refuted :
+  teq_legacy t_23_45 t_fnkey = true /\ teq_legacy t_fnkey t_23_67 = true /\
+  teq_legacy t_23_45 t_23_67 = false /\ no_nan t_fnkey = true.
+Proof. repeat split; reflexivity. Qed.
+
+(* the repaired code tells them apart *)
+Theorem fn_key_repaired :
+  teq t_fnkey t_23_45 = false /\ teq t_fnkey t_fnkey = true /\ teq t_fnkey t_23_67 = false.
 Proof. repeat split; reflexivity. Qed.
 
 (* ------------------------------------------------------------------ *)
